@@ -1110,12 +1110,14 @@ def lib_dynamic_slice(ex, args, kwargs, pc):
     starts, sizes = list(starts), list(sizes)
     cl = []
     for s, n, k in zip(starts, a.shape, sizes):
-        # XLA clamps the start index into [0, n - size]
+        # jax.lax wraps a negative start (s + n), then XLA clamps the start index into [0, n - size]
         hi = n - k
-        if concrete(s) and concrete(hi):
+        if concrete(s) and concrete(hi) and concrete(n):
+            s = s + n if s < 0 else s
             cl.append(max(0, min(s, hi)))
         else:
             s_, hi_ = zint(s), zint(hi)
+            s_ = z3.If(s_ < 0, s_ + zint(n), s_)
             cl.append(z3.If(s_ < 0, 0, z3.If(s_ > hi_, hi_, s_)))
     return SArr(tuple(sizes), lambda *j: a.elem(*[c + x for c, x in zip(cl, j)]), a.dtype)
 
@@ -1125,10 +1127,12 @@ def lib_dynamic_update_slice(ex, args, kwargs, pc):
     cl = []
     for s, n, k in zip(starts, a.shape, u.shape):
         hi = n - k
-        if concrete(s) and concrete(hi):
+        if concrete(s) and concrete(hi) and concrete(n):
+            s = s + n if s < 0 else s
             cl.append(max(0, min(s, hi)))
         else:
             s_, hi_ = zint(s), zint(hi)
+            s_ = z3.If(s_ < 0, s_ + zint(n), s_)
             cl.append(z3.If(s_ < 0, 0, z3.If(s_ > hi_, hi_, s_)))
 
     def elem(*j):
